@@ -98,6 +98,20 @@ class Segment(CoreSummaries, Contract):
             fields.update(self.make_self(I))
             selfv = st.new_obj(self.cls, fields)
             loc = self.make_locals(I, selfv)
+            if self.start > 0:
+                # the contract describes the suspended frame with the local names of the baseline source; follow renamings,
+                # and refuse (checker error) to describe a local the function no longer has
+                lm = I.index.local_map(self.qual_resolved)
+                from pyvc.localmap import local_names
+                have, params = local_names(node)
+                loc2 = {}
+                for k, v in loc.items():
+                    k2 = lm.get(k, k)
+                    if k2 != 'self' and not k2.startswith('__') and k2 not in have and k2 not in params:
+                        raise Unsupported('the contract describes the local %r of the suspended frame, which %s no longer has '
+                                          '(no counterpart found by the local-name alignment)' % (k, self.qual_resolved))
+                    loc2[k2] = v
+                loc = loc2
             self.requires(I, selfv, loc)
             self.pre_args = dict(loc)
             self.pre_state = st.snapshot()
